@@ -6,8 +6,14 @@
    list come from Gen/Tables.v, which is regenerated from /repo on every run.
    Index labels are not part of the model (the code never reads them; the harness
    observes relabelled variants on every run), so relabelling invariance is an
-   observation, not a theorem.  Date recognition is pandas' (DateStr is an input
-   classification).
+   observation, not a theorem.  Date recognition is pandas': a DateStr cell carries,
+   as input classifications, the formats it parses under and the format pandas
+   guesses from it.  With an explicit candidate format of possible_time_formats
+   (Gen/Tables.v) recognition is a per-cell matter; with format=None pandas guesses
+   the format from the FIRST element, which makes the real code depend on the row
+   order for date columns outside the explicit formats (known finding
+   date-format-inference-order-dependent; witness: date_guess_order_dependence_refuted
+   below).  The date theorems are therefore stated for the explicit formats.
 
    Finite-domain facts proved by computation: threshold_is_4_vs_5 and the Examples. *)
 From Coq Require Import List ZArith QArith Bool String Permutation.
@@ -35,7 +41,7 @@ Proof. exact table_all_missing. Qed.
 Print Assumptions all_missing_is_skipped.
 
 (* 2. float columns infer numerical (a float column whose values are all integral
-      AND that has missing cells is pandas' image of an integer column: see 4) *)
+      AND that has missing cells is pandas' image of an integer column: see 2b) *)
 Theorem float_is_numerical : forall col,
   column_of float_cell col -> dropna col <> [] ->
   (has_nan col = false \/ existsb (fun c => negb (is_integral c)) (dropna col) = true) ->
@@ -43,9 +49,24 @@ Theorem float_is_numerical : forall col,
 Proof. exact table_float. Qed.
 Print Assumptions float_is_numerical.
 
-(* 3. booleans infer categorical *)
+(* 2b. the code's deliberate `has_nan and integral` rule, made visible: a float
+       column whose values are ALL integral is numerical without a missing cell and
+       judged by multiplicity (like integers) with one.  For this family the result
+       is NOT a function of the non-missing values alone; it is outside the
+       invariance claims below (missing cells are only added to string / list /
+       integer / boolean columns). *)
+Theorem integral_floats_depend_on_nan : forall col,
+  column_of float_cell col -> dropna col <> [] ->
+  forallb is_integral (dropna col) = true ->
+  infer_series_stype col =
+  Inferred (Some (if has_nan col && above_thresh (min_count (dropna col))
+                  then st_categorical else st_numerical)).
+Proof. exact table_integral_floats. Qed.
+Print Assumptions integral_floats_depend_on_nan.
+
+(* 3. booleans infer categorical, with or without missing cells *)
 Theorem bool_is_categorical : forall col,
-  forallb is_bool_cell col = true -> col <> [] ->
+  column_of is_bool_cell col -> dropna col <> [] ->
   infer_series_stype col = Inferred (Some st_categorical).
 Proof. exact table_bool. Qed.
 Print Assumptions bool_is_categorical.
@@ -59,9 +80,13 @@ Theorem int_by_min_count : forall col,
 Proof. exact table_int. Qed.
 Print Assumptions int_by_min_count.
 
-(* 5. parseable dates infer timestamp (whatever their multiplicities) *)
-Theorem dates_are_timestamp : forall col,
-  column_of is_datestr col -> dropna col <> [] ->
+(* 5. dates written in ONE explicit candidate format of possible_time_formats infer
+      timestamp (whatever their multiplicities).  Columns of individually parseable
+      dates in a format pandas must guess, or in mixed formats, are NOT covered: see
+      the header and date_guess_order_dependence_refuted. *)
+Theorem dates_are_timestamp : forall col f,
+  In (Some f) possible_time_formats ->
+  column_of (cell_accepts f) col -> dropna col <> [] ->
   infer_series_stype col = Inferred (Some st_timestamp).
 Proof. exact table_date. Qed.
 Print Assumptions dates_are_timestamp.
@@ -133,9 +158,29 @@ Theorem first_is_list_order_independent : forall col col',
 Proof. exact first_is_list_perm. Qed.
 Print Assumptions first_is_list_order_independent.
 
+(* date recognition does not rest on pandas' guess: the column parses under an
+   explicit candidate format, or under no format at all (e.g. it contains a cell that
+   is not a date string) *)
+Definition dates_explicit (ser : list cell) : Prop :=
+  existsb (fun fo => match fo with Some f => parses_with f ser | None => false end) possible_time_formats = true
+  \/ (forall f, parses_with f ser = false).
+
+Theorem dates_explicit_sufficient : forall ser,
+  (forall x, In x ser -> is_datestr x = false) -> ser <> [] -> dates_explicit ser.
+Proof.
+  intros ser H Hne. destruct ser as [|x r]; [congruence|].
+  exact (non_date_cell_robust (x :: r) x (or_introl eq_refl) (H x (or_introl eq_refl))).
+Qed.
+Print Assumptions dates_explicit_sufficient.
+
+Theorem dates_explicit_sufficient' : forall ser f,
+  In (Some f) possible_time_formats -> parses_with f ser = true -> dates_explicit ser.
+Proof. exact explicit_format_robust. Qed.
+Print Assumptions dates_explicit_sufficient'.
+
 (* 11. permuting the rows does not change the result *)
 Theorem row_order_is_irrelevant : forall col col',
-  homogeneous_col col -> Permutation col col' ->
+  homogeneous_col col -> dates_explicit (dropna col) -> Permutation col col' ->
   infer_series_stype col = infer_series_stype col'.
 Proof. exact infer_perm_invariant. Qed.
 Print Assumptions row_order_is_irrelevant.
@@ -151,9 +196,18 @@ Theorem missing_cells_are_irrelevant : forall col col',
 Proof. exact infer_missing_invariant. Qed.
 Print Assumptions missing_cells_are_irrelevant.
 
+(* 12b. integer and boolean columns: the result is a function of the non-missing
+        values (missing cells may be added, removed or moved) *)
+Theorem int_bool_missing_cells_are_irrelevant : forall col col',
+  (column_of is_int_cell col \/ column_of is_bool_cell col) ->
+  dropna col' = dropna col ->
+  infer_series_stype col' = infer_series_stype col.
+Proof. exact int_bool_missing_invariant. Qed.
+Print Assumptions int_bool_missing_cells_are_irrelevant.
+
 (* 11 + 12 together: any reordering combined with any change of the missing cells *)
 Theorem order_and_missing_are_irrelevant : forall col col',
-  homogeneous_col col -> string_or_list_col col ->
+  homogeneous_col col -> dates_explicit (dropna col) -> string_or_list_col col ->
   Permutation (dropna col) (dropna col') ->
   infer_series_stype col' = infer_series_stype col.
 Proof. exact infer_perm_missing_invariant. Qed.
@@ -226,7 +280,43 @@ Example float_examples :
 Proof. split; vm_compute; reflexivity. Qed.
 
 (* a frame: the all-missing column is skipped, order kept *)
+Definition iso (s : string) : cell := DateStr "%Y-%m-%d" ["%Y-%m-%d"] s.
 Example frame_example :
-  infer_df_stype [("n", [Float (1 # 2)]); ("gone", [Missing; Missing]); ("t", [DateStr "2020-01-02"])]
+  infer_df_stype [("n", [Float (1 # 2)]); ("gone", [Missing; Missing]); ("t", [iso "2020-01-02"])]
   = Some [("n", st_numerical); ("t", st_timestamp)].
 Proof. vm_compute. reflexivity. Qed.
+
+(* booleans with a missing cell (object dtype in pandas) *)
+Example bool_with_missing :
+  infer_series_stype [Bool true; Missing; Bool false] = Inferred (Some st_categorical).
+Proof. vm_compute. reflexivity. Qed.
+
+(* integral floats: numerical without NaN, categorical with one (2b) *)
+Example integral_floats_example :
+  infer_series_stype (repeat (Float (1 # 1)) 5 ++ repeat (Float (2 # 1)) 5) = Inferred (Some st_numerical) /\
+  infer_series_stype (repeat (Float (1 # 1)) 5 ++ repeat (Float (2 # 1)) 5 ++ [Missing]) = Inferred (Some st_categorical).
+Proof. split; vm_compute; reflexivity. Qed.
+
+(* KNOWN FINDING date-format-inference-order-dependent, at model level.  Day-first
+   dates: "01/02/2020" is ambiguous (pandas guesses month-first, both readings parse),
+   "13/02/2020" is not.  The column is homogeneous, every cell parses, and the result
+   depends on which cell comes first: the statement "unchanged by permuting the rows"
+   is refuted for date columns outside the explicit formats. *)
+Definition d_ambiguous : cell := DateStr "%m/%d/%Y" ["%m/%d/%Y"; "%d/%m/%Y"] "01/02/2020".
+Definition d_dayfirst : cell := DateStr "%d/%m/%Y" ["%d/%m/%Y"] "13/02/2020".
+Example date_guess_order_dependence_refuted :
+  exists col col',
+    homogeneous_col col /\ Permutation col col' /\
+    infer_series_stype col = Inferred (Some st_text_embedded) /\
+    infer_series_stype col' = Inferred (Some st_timestamp).
+Proof.
+  exists [d_ambiguous; d_dayfirst], [d_dayfirst; d_ambiguous].
+  split; [right; reflexivity|]. split; [apply perm_swap|]. split; vm_compute; reflexivity.
+Qed.
+
+(* mixed explicit formats: every cell parses under SOME candidate, no candidate parses
+   all of them: not a timestamp in any order (second half of the known finding) *)
+Example mixed_iso_formats_not_timestamp :
+  infer_series_stype [iso "2020-01-02"; DateStr "%Y/%m/%d" ["%Y/%m/%d"] "2020/01/03"] = Inferred (Some st_text_embedded) /\
+  infer_series_stype [DateStr "%Y/%m/%d" ["%Y/%m/%d"] "2020/01/03"; iso "2020-01-02"] = Inferred (Some st_text_embedded).
+Proof. split; vm_compute; reflexivity. Qed.
